@@ -187,19 +187,21 @@ func learnNilness(succ *ssa.BasicBlock, pred *ssa.BasicBlock, table nilnessTable
 		return lTable, false
 	}
 
-	// Only one operand is known of nilness.
+	// Only one operand is known of nilness. On the equal edge the other operand has the same nilness. On the
+	// not-equal edge we learn something only from a nil operand: differing from nil means being non-nil, whereas
+	// differing from some non-nil value says nothing.
 	if ynil == unknown {
 		// learn the nilness of Y
 		if succ == eqSucc {
 			lTable.expandNilness(binOp.Y, xnil)
-		} else {
+		} else if xnil != isnonnil {
 			lTable.expandNilness(binOp.Y, xnil.negate())
 		}
 	} else {
 		// learn the nilness of X
 		if succ == eqSucc {
 			lTable.expandNilness(binOp.X, ynil)
-		} else {
+		} else if ynil != isnonnil {
 			lTable.expandNilness(binOp.X, ynil.negate())
 		}
 	}
